@@ -95,6 +95,12 @@ theorem derivable (env : Env) (s : Schema) (hwf : s.wf env = true) :
 theorem dispatch_tables : dispatchOk Generated.readerRows Generated.writerRows = true := by
   decide +kernel
 
+/-- the model's implicit defaults of the primitive types are the code's (`get_implicit_default`
+    observed by the translator for every primitive type, plain and through a subclass) -/
+theorem implicit_defaults :
+    implicitOk (Env.current Generated.errorCodes) Generated.implicitRows = true := by
+  decide +kernel
+
 /-- the class counts the instance theorems range over -/
 theorem class_count : Generated.allClasses.length = Generated.numClasses := by decide +kernel
 
